@@ -179,7 +179,7 @@ impl LayersData {
 
     pub(crate) fn from_vec(layers: Vec<LayerData>) -> Result<Self> {
         // TODO: Validate some properties
-        let parents = compute_parents(&layers);
+        let parents = compute_parents(&layers)?;
         Ok(LayersData { layers, parents })
     }
 }
@@ -297,8 +297,14 @@ fn parse_blend_mode(id: u16) -> Result<BlendMode> {
     }
 }
 
-fn compute_parents(layers: &[LayerData]) -> Vec<Option<u32>> {
+fn compute_parents(layers: &[LayerData]) -> Result<Vec<Option<u32>>> {
     let mut result = Vec::with_capacity(layers.len());
+    let no_parent = |id: usize| {
+        AsepriteParseError::InvalidInput(format!(
+            "Layer {} has child level {} but no preceding layer with a lower level",
+            id, layers[id].child_level
+        ))
+    };
 
     for id in 0..layers.len() {
         let parent = {
@@ -307,15 +313,16 @@ fn compute_parents(layers: &[LayerData]) -> Vec<Option<u32>> {
                 None
             } else {
                 // Find first layer with a lower id and a lower child_level.
-                let mut parent_candidate = id - 1;
+                let mut parent_candidate = id.checked_sub(1).ok_or_else(|| no_parent(id))?;
                 while layers[parent_candidate].child_level >= my_child_level {
-                    assert!(parent_candidate > 0);
-                    parent_candidate -= 1;
+                    parent_candidate = parent_candidate
+                        .checked_sub(1)
+                        .ok_or_else(|| no_parent(id))?;
                 }
                 Some(parent_candidate as u32)
             }
         };
         result.push(parent);
     }
-    result
+    Ok(result)
 }
